@@ -76,7 +76,8 @@ impl RangeKeeper {
                     str = str.split_at(newline_idx + 1).1;
                 }
                 None => {
-                    self.character += str.len() as u32;
+                    // LSP positions count UTF-16 code units, not bytes
+                    self.character += str.encode_utf16().count() as u32;
                     break;
                 }
             }
